@@ -427,6 +427,59 @@ def drop_obligation(chk, F, system, rows, supplied, rng):
             return
 
 
+def passthrough_obligation(chk, F, system, rows, supplied, rng):
+    """Non-modulus columns pass through untouched -- whatever they hold: values that are zero (or below the drop tolerance) at every
+    volume included.  A symmetry-consistent symbolic table with three extra columns: concrete zeros, symbolic values bounded below the
+    drop tolerance, free symbolic values."""
+    name = "%s:non-modulus columns pass through (zero / tiny / arbitrary values)" % system
+    ctx = new_context()
+    basis = FC.invariant_basis(rows)
+    t_rows = FC.symbolic_invariant(ctx, basis, 2)
+    tiny = symarray([ctx.var("tiny%d" % r, lo=Fraction(-1, 10 ** 9), hi=Fraction(1, 10 ** 9)) for r in range(2)])
+    free = symarray([ctx.var("free%d" % r) for r in range(2)])
+    df = FC.make_table(t_rows, supplied, extra={"P": [0.0, 0.0], "T": tiny, "misc": free})
+    ex = X.Explorer(max_paths=64, name=name)
+    ex.prefer = FC.no_drop_cut
+    t0 = time.time()
+    fails = []
+    try:
+        paths, proxy, ex = FC.run_fill(F, df, system, explorer=ex)
+    except (SymError, X.PathBudgetExceeded) as e:
+        chk.inconclusive(name, str(e))
+        return
+    for p in paths:
+        if p.exception is not None:
+            fails.append("raises %s: %s" % (type(p.exception).__name__, p.exception))
+            continue
+        out = p.result
+        for col, want in (("V", df["V"].tolist()), ("P", [0.0, 0.0]), ("T", list(tiny)), ("misc", list(free))):
+            if col not in out.columns:
+                fails.append("non-modulus column %r is missing from the result" % col)
+            elif not all((Sym.of(a).same(b) if isinstance(b, Sym) or isinstance(a, Sym) else a == b) for a, b in zip(out[col].tolist(), want)):
+                fails.append("non-modulus column %r is altered" % col)
+    chk.obligation(name, "unsat" if not fails else "sat", seconds=round(time.time() - t0, 2), kind="pass-through", detail=sorted(set(fails))[:3])
+    if fails:
+        data = {"V": [100.0, 95.0], "P": [0.0, 0.0], "T": [1e-10, -1e-10], "misc": [3.5, -2.0]}
+        coeffs = [[rng.uniform(50, 300) for _ in basis] for _ in range(2)]
+        for k in supplied:
+            data[k] = [sum(c * float(b[k]) for c, b in zip(coeffs[r], basis)) for r in range(2)]
+        try:
+            with warnings.catch_warnings():
+                warnings.simplefilter("ignore")
+                out = F.fill_cij(pandas.DataFrame(data), system)
+        except BaseException as e:
+            if isinstance(e, (KeyboardInterrupt, SystemExit)):
+                raise
+            chk.violation("%s:passthrough-raises" % system, "fill_cij raises %s: %s on a consistent table with extra non-modulus columns" % (type(e).__name__, e), dict(table=data))
+            return
+        lost = [c for c in ("V", "P", "T", "misc") if c not in out.columns or list(out[c]) != data[c]]
+        if lost:
+            chk.violation("passthrough:non-modulus-columns", "fill_cij(%s) drops or alters the non-modulus columns %s (P is 0 at every volume, T is 1e-10: "
+                          "both below the drop tolerance meant for vanishing tensor components)" % (system, lost), dict(table=data))
+        else:
+            chk.harness_error("%s did not reproduce concretely" % name)
+
+
 def configuration_twins(chk, F, rng):
     """Stage R(c): the same fill under configurations symbolic values cannot carry (dtype, cwd, relation-file path)."""
     from cij.data import get_data_fname
@@ -526,6 +579,26 @@ def configuration_twins(chk, F, rng):
                 raise
             chk.violation("twin:relations-file-rewritten", "fill_cij(table, <path>) raises %s: %s after the relations file at that path was "
                           "rewritten with the hexagonal relations (it held the cubic ones at the previous call)" % (type(e).__name__, str(e)[:100]), {})
+        # (3b) the same relations in a user-written file with the usual blank lines (between two relations, at the end)
+        try:
+            with open(get_data_fname("constraints/" + system)) as fp:
+                rel_lines = [ln.rstrip("\n") for ln in fp if ln.strip()]
+            blankfile = os.path.join(tmp, "relations_with_blank_lines.txt")
+            with open(blankfile, "w") as fp:
+                fp.write(rel_lines[0] + "\n\n" + "\n".join(rel_lines[1:]) + "\n\n")
+            with warnings.catch_warnings():
+                warnings.simplefilter("ignore")
+                out = F.fill_cij(base.copy(), blankfile)
+            d = same(out)
+            if d:
+                chk.violation("twin:relations-file-blank-lines", "a relations file equal to the packaged one up to blank lines gives a different outcome: %s" % d, {})
+            else:
+                chk.side_check("twin relations file with blank lines", True)
+        except BaseException as e:
+            if isinstance(e, (KeyboardInterrupt, SystemExit)):
+                raise
+            chk.violation("twin:relations-file-blank-lines", "fill_cij(table, <path>) raises %s: %s for a relations file that equals the packaged "
+                          "one up to a blank line between two relations and one at the end" % (type(e).__name__, str(e)[:100]), {})
         # (5) the command line: each flag alone switches off exactly its own refusal
         try:
             from click.testing import CliRunner
@@ -603,6 +676,8 @@ def main():
         invariance_obligations(chk, F, system, rows, full_nonzero, rng, consistent=True)
         if tier != "quick" or system in ("cubic", "trigonal6", "monoclinic"):
             drop_obligation(chk, F, system, rows, canon, rng)
+        if tier != "quick" or system in ("cubic", "hexagonal"):
+            passthrough_obligation(chk, F, system, rows, canon, rng)
     configuration_twins(chk, F, rng)
     chk.bound(systems=systems, supplied_sets="canonical, full non-zero, canonical minus one key%s" % ("" if tier == "quick" else " (each), 3 exchanges"),
               flags="all 4 combinations", residual_atol=[0.1] if tier == "quick" else [0.1, 1e-4], rows=1 if tier == "quick" else 2,
